@@ -367,6 +367,10 @@ def job_check(kind, case, rec):
         return
     rec.require("raises-iff-failure", raised == stop)
     rec.require("callback-sequence", [(s_[0], s_[1]) for s_ in seen] == [(a, b) for a, b, _ in expect], {"seen": len(seen), "expected": len(expect)})
+    if len(seen) == len(expect) and seen and hasattr(job, "timetrack"):
+        # the job's own time axis: one stamp per converged substep, counted through all steps
+        tt = [float(t_) for t_ in job.timetrack]
+        rec.require("timetrack=0,1,2,...-through-all-steps", tt == [float(i_) for i_ in range(len(expect))], tt[:12])
     if len(seen) == len(expect) and seen:
         rec.close("callback-sees-ramp-values", max(abs(s_[2] - e[2]) for s_, e in zip(seen, expect)), 1e-15)
         # every substep starts from the previous converged state: a repeated ramp value is already the solution
